@@ -624,13 +624,20 @@ pub fn arb_auth_case() -> BoxedStrategy<SrvCase> {
     )
         .prop_flat_map(|(units, decode, select_seed, policy, role, framing)| {
             let ids: Vec<u8> = units.iter().map(|u| u.0).collect();
-            (arb_frames(framing, ids, WinHint::of(units.first().map(|u| &u.1)), 8, 10), vec((any::<prop::sample::Index>(), 1usize..4), 0..3)).prop_map(
+            let ids2 = ids.clone();
+            (arb_frames(framing, ids, WinHint::of(units.first().map(|u| &u.1)), 8, 10), vec((any::<prop::sample::Index>(), 1usize..4, any::<u8>()), 0..3)).prop_map(
                 move |(mut frames, repeats)| {
-                    // repeat some requests so that a per-call policy sees the same request again
-                    for (idx, times) in &repeats {
+                    // repeat some requests so that a per-call policy sees the same request again;
+                    // half of the repeats go to another unit id (the same function and range
+                    // addressed to another unit is another question to the authorization handler)
+                    for (idx, times, other) in &repeats {
                         let f = frames[idx.index(frames.len())].clone();
-                        for _ in 0..*times {
-                            frames.push(f.clone());
+                        for k in 0..*times {
+                            let mut g = f.clone();
+                            if (*other as usize + k) % 2 == 1 {
+                                g.unit = if !ids2.is_empty() && *other % 4 != 0 { ids2[*other as usize % ids2.len()] } else { *other };
+                            }
+                            frames.push(g);
                         }
                     }
                     SrvCase {
